@@ -127,16 +127,17 @@ func (sc *StateCache) commit(bc *BlockCache) {
 	verifYield("commit.link")
 	sc.commitRound(bc.round, bc.prevBlockHash, bc.blockHash)
 
-	sc.hits += bc.hits
-	sc.miss += bc.miss
+	bcHits, bcMiss := bc.Stats()
+	sc.hits += bcHits
+	sc.miss += bcMiss
 
 	// Clear the pre-commit cache
 	bc.cache = make(map[string]valueNode)
 	bc.committed = true
 	logging.Logger.Debug("statecache - commit",
 		zap.String("block", bc.blockHash),
-		zap.Int64("bc_hits", bc.hits),
-		zap.Int64("bc_miss", bc.miss),
+		zap.Int64("bc_hits", bcHits),
+		zap.Int64("bc_miss", bcMiss),
 		zap.Int64("sc_hits", sc.hits),
 		zap.Int64("sc_miss", sc.miss),
 		zap.Any("duration", time.Since(ts)))
